@@ -661,6 +661,14 @@ pub fn e2_jobs(prop: &str, tier: Tier) -> Vec<E2Job> {
                 }
                 jobs.push(E2Job { label: "batches whose controller dispatches the inner plan 2-3 times (hand-written / MultiDispatcher), single panicking system, then a clean dispatch".into(), scenarios: panic_scen(&plans, &[Mode::Dispatch, Mode::Seq], false), bounds: b(1), delay: false });
             }
+            {
+                // unnamed systems among named ones (the empty name is not a name: ids, dependency look-ups)
+                let un: Vec<Vec<Op>> = distinct_plans(&Profile::B { access: acc(&[(&[], &[]), (&[], &[0])]), times: vec![3], unnamed: true, dup: false, pairs: false }, 3, 1)
+                    .into_iter()
+                    .filter(|p| p.len() == 3 && p.iter().any(|o| matches!(o, Op::Sys(x) if x.name.is_empty())) && p.iter().any(|o| matches!(o, Op::Sys(x) if !x.deps.is_empty())))
+                    .collect();
+                jobs.push(E2Job { label: "3-op dependency plans with unnamed systems among named ones, single panicking system".into(), scenarios: panic_scen(&un, &[Mode::Dispatch, Mode::Seq], false), bounds: b(if q { 0 } else { 1 }), delay: false });
+            }
             jobs.push(E2Job { label: "barrier plans of <= 3 ops (leading / repeated barriers, dependencies across them), single panicking system".into(), scenarios: panic_scen(&barr(3), &[Mode::Dispatch, Mode::Seq], false), bounds: b(1), delay: false });
             jobs.push(E2Job { label: "3-op plans, single panicking system".into(), scenarios: panic_scen(&depplans(3).into_iter().filter(|p| p.len() == 3).collect::<Vec<_>>(), &[Mode::Dispatch], !q), bounds: b(if q { 1 } else { 2 }), delay: false });
             {
